@@ -111,3 +111,8 @@ func init() {
 		},
 	})
 }
+
+func init() {
+	c := fw.Lookup("C08")
+	c.Phases = append(c.Phases, sqlExtraPhases(evalC08, false)...)
+}
